@@ -87,111 +87,125 @@ def check(spec):
     def cmp(sub, analytic, num, dis):
         compare(res, sub, site, analytic, num, dis, feats, tol=1e-6)
 
-    # ---- translational hierarchy ----------------------------------------------------------
-    num, dis = flow(lambda t_, q_, u_: body.r_OP(t_, q_, **kw))
-    cmp("v_is_dr_dt", body.v_P(t, q, u, **kw), num, dis)
-    num, dis = flow(lambda t_, q_, u_: body.v_P(t_, q_, u_, **kw))
-    cmp("a_is_dv_dt", body.a_P(t, q, u, ud, **kw), num, dis)
-    J = np.asarray(body.J_P(t, q, **kw), dtype=float)
-    if nu:
-        num, dis = jacobian(lambda u_: body.v_P(t, q, u_, **kw), u, hu)
-        cmp("J_is_dv_du", J, num, dis)
-    if hasattr(body, "kappa_P"):
-        a = np.asarray(body.a_P(t, q, u, ud, **kw), dtype=float)
-        kap = np.asarray(body.kappa_P(t, q, u, **kw), dtype=float)
-        res.ok()
-        err = float(np.max(np.abs(a - (J @ ud if nu else 0.0) - kap)))
-        if err > 1e-10 * (1 + float(np.max(np.abs(a)))):
-            res.fail("a_equals_J_udot_plus_kappa", site, err, feats, f"err={err:.3e}")
-
-    # ---- rotational hierarchy ---------------------------------------------------------------
-    if hasattr(body, "A_IB"):
-        A = np.asarray(body.A_IB(t, q), dtype=float)
-        res.ok()
-        if np.max(np.abs(A.T @ A - np.eye(3))) > 1e-12:
-            res.fail("A_IB_is_rotation", site, float(np.max(np.abs(A.T @ A - np.eye(3)))), feats)
-        dA, dis = flow(lambda t_, q_, u_: body.A_IB(t_, q_))
-        S = A.T @ dA
-        cmp("omega_is_spin", body.B_Omega(t, q, u), skew2ax(S), dis)
-        res.ok()
-        if np.max(np.abs(S + S.T)) > 1e-6 * (1 + np.max(np.abs(S))) and dis < 1e-7:
-            res.fail("A_IB_rate_is_skew", site, float(np.max(np.abs(S + S.T))), feats)
-        num, dis = flow(lambda t_, q_, u_: body.B_Omega(t_, q_, u_))
-        cmp("psi_is_domega_dt", body.B_Psi(t, q, u, ud), num, dis)
-        BJ = np.asarray(body.B_J_R(t, q), dtype=float)
+    # All clauses are evaluated three times on the same object at the same (t, q): at (u, u_dot, B_r_CP) of the case,
+    # then at another body-fixed point, then at another velocity and acceleration. The bodies memoise kinematic quantities per
+    # configuration; a quantity that also depends on the velocity or on the point and is keyed on less is served stale.
+    for _pass in range(3):
+        if _pass == 1:
+            # another body-fixed point, same velocity
+            kw = dict(xi=None, B_r_CP=-0.7 * B + np.array([0.1, 0.2, -0.3]))
+        if _pass == 2:
+            # another velocity and acceleration, same point
+            if not nu:
+                break
+            u = -0.6 * u[::-1] + 0.3
+            ud = 0.8 * ud[::-1] - 0.1
+            qd = np.asarray(body.q_dot(t, q, u), dtype=float) if nq else np.zeros(0)
+        # ---- translational hierarchy ----------------------------------------------------------
+        num, dis = flow(lambda t_, q_, u_: body.r_OP(t_, q_, **kw))
+        cmp("v_is_dr_dt", body.v_P(t, q, u, **kw), num, dis)
+        num, dis = flow(lambda t_, q_, u_: body.v_P(t_, q_, u_, **kw))
+        cmp("a_is_dv_dt", body.a_P(t, q, u, ud, **kw), num, dis)
+        J = np.asarray(body.J_P(t, q, **kw), dtype=float)
         if nu:
-            num, dis = jacobian(lambda u_: body.B_Omega(t, q, u_), u, hu)
-            cmp("B_J_R_is_dOmega_du", BJ, num, dis)
-        psi = np.asarray(body.B_Psi(t, q, u, ud), dtype=float)
-        kr = np.asarray(body.B_kappa_R(t, q, u), dtype=float)
-        res.ok()
-        err = float(np.max(np.abs(psi - (BJ @ ud if nu else 0.0) - kr)))
-        if err > 1e-10 * (1 + float(np.max(np.abs(psi)))):
-            res.fail("psi_equals_J_R_udot_plus_kappa_R", site, err, feats)
+            num, dis = jacobian(lambda u_: body.v_P(t, q, u_, **kw), u, hu)
+            cmp("J_is_dv_du", J, num, dis)
+        if hasattr(body, "kappa_P"):
+            a = np.asarray(body.a_P(t, q, u, ud, **kw), dtype=float)
+            kap = np.asarray(body.kappa_P(t, q, u, **kw), dtype=float)
+            res.ok()
+            err = float(np.max(np.abs(a - (J @ ud if nu else 0.0) - kap)))
+            if err > 1e-10 * (1 + float(np.max(np.abs(a)))):
+                res.fail("a_equals_J_udot_plus_kappa", site, err, feats, f"err={err:.3e}")
 
-    # ---- partial derivatives -----------------------------------------------------------------
-    if nq:
-        def dq(name, f, analytic):
-            num, dis = jacobian(f, q, hq)
-            cmp(f"partial:{name}", analytic, num, dis)
+        # ---- rotational hierarchy ---------------------------------------------------------------
+        if hasattr(body, "A_IB"):
+            A = np.asarray(body.A_IB(t, q), dtype=float)
+            res.ok()
+            if np.max(np.abs(A.T @ A - np.eye(3))) > 1e-12:
+                res.fail("A_IB_is_rotation", site, float(np.max(np.abs(A.T @ A - np.eye(3)))), feats)
+            dA, dis = flow(lambda t_, q_, u_: body.A_IB(t_, q_))
+            S = A.T @ dA
+            cmp("omega_is_spin", body.B_Omega(t, q, u), skew2ax(S), dis)
+            res.ok()
+            if np.max(np.abs(S + S.T)) > 1e-6 * (1 + np.max(np.abs(S))) and dis < 1e-7:
+                res.fail("A_IB_rate_is_skew", site, float(np.max(np.abs(S + S.T))), feats)
+            num, dis = flow(lambda t_, q_, u_: body.B_Omega(t_, q_, u_))
+            cmp("psi_is_domega_dt", body.B_Psi(t, q, u, ud), num, dis)
+            BJ = np.asarray(body.B_J_R(t, q), dtype=float)
+            if nu:
+                num, dis = jacobian(lambda u_: body.B_Omega(t, q, u_), u, hu)
+                cmp("B_J_R_is_dOmega_du", BJ, num, dis)
+            psi = np.asarray(body.B_Psi(t, q, u, ud), dtype=float)
+            kr = np.asarray(body.B_kappa_R(t, q, u), dtype=float)
+            res.ok()
+            err = float(np.max(np.abs(psi - (BJ @ ud if nu else 0.0) - kr)))
+            if err > 1e-10 * (1 + float(np.max(np.abs(psi)))):
+                res.fail("psi_equals_J_R_udot_plus_kappa_R", site, err, feats)
 
-        def du(name, f, analytic):
-            num, dis = jacobian(f, u, hu)
-            cmp(f"partial:{name}", analytic, num, dis)
+        # ---- partial derivatives -----------------------------------------------------------------
+        if nq:
+            def dq(name, f, analytic):
+                num, dis = jacobian(f, q, hq)
+                cmp(f"partial:{name}", analytic, num, dis)
 
-        dq("r_OP_q", lambda q_: body.r_OP(t, q_, **kw), body.r_OP_q(t, q, **kw))
-        dq("v_P_q", lambda q_: body.v_P(t, q_, u, **kw), body.v_P_q(t, q, u, **kw))
-        dq("J_P_q", lambda q_: body.J_P(t, q_, **kw), body.J_P_q(t, q, **kw))
-        dq("a_P_q", lambda q_: body.a_P(t, q_, u, ud, **kw), body.a_P_q(t, q, u, ud, **kw))
-        du("a_P_u", lambda u_: body.a_P(t, q, u_, ud, **kw), body.a_P_u(t, q, u, ud, **kw))
-        if hasattr(body, "q_dot_q"):
-            dq("q_dot_q", lambda q_: body.q_dot(t, q_, u), body.q_dot_q(t, q, u))
-        du("q_dot_u", lambda u_: body.q_dot(t, q, u_), body.q_dot_u(t, q))
-        if kind == "rigid":
-            dq("A_IB_q", lambda q_: body.A_IB(t, q_), body.A_IB_q(t, q))
-            dq("kappa_P_q", lambda q_: body.kappa_P(t, q_, u, **kw), body.kappa_P_q(t, q, u, **kw))
-            du("kappa_P_u", lambda u_: body.kappa_P(t, q, u_, **kw), body.kappa_P_u(t, q, u, **kw))
-            dq("B_Omega_q", lambda q_: body.B_Omega(t, q_, u), body.B_Omega_q(t, q, u))
-            dq("B_Psi_q", lambda q_: body.B_Psi(t, q_, u, ud), body.B_Psi_q(t, q, u, ud))
-            du("B_Psi_u", lambda u_: body.B_Psi(t, q, u_, ud), body.B_Psi_u(t, q, u, ud))
-            dq("B_J_R_q", lambda q_: body.B_J_R(t, q_), body.B_J_R_q(t, q))
-            dq("B_kappa_R_q", lambda q_: body.B_kappa_R(t, q_, u), body.B_kappa_R_q(t, q, u))
-            du("B_kappa_R_u", lambda u_: body.B_kappa_R(t, q, u_), body.B_kappa_R_u(t, q, u))
-            dq("g_S_q", lambda q_: body.g_S(t, q_), body.g_S_q(t, q))
-            du("h_u", lambda u_: body.h(t, q, u_), body.h_u(t, q, u))
-            # quaternion length is preserved by the kinematic equation
-            P = q[3:]
+            def du(name, f, analytic):
+                num, dis = jacobian(f, u, hu)
+                cmp(f"partial:{name}", analytic, num, dis)
+
+            dq("r_OP_q", lambda q_: body.r_OP(t, q_, **kw), body.r_OP_q(t, q, **kw))
+            dq("v_P_q", lambda q_: body.v_P(t, q_, u, **kw), body.v_P_q(t, q, u, **kw))
+            dq("J_P_q", lambda q_: body.J_P(t, q_, **kw), body.J_P_q(t, q, **kw))
+            dq("a_P_q", lambda q_: body.a_P(t, q_, u, ud, **kw), body.a_P_q(t, q, u, ud, **kw))
+            du("a_P_u", lambda u_: body.a_P(t, q, u_, ud, **kw), body.a_P_u(t, q, u, ud, **kw))
+            if hasattr(body, "q_dot_q"):
+                dq("q_dot_q", lambda q_: body.q_dot(t, q_, u), body.q_dot_q(t, q, u))
+            du("q_dot_u", lambda u_: body.q_dot(t, q, u_), body.q_dot_u(t, q))
+            if kind == "rigid":
+                dq("A_IB_q", lambda q_: body.A_IB(t, q_), body.A_IB_q(t, q))
+                dq("kappa_P_q", lambda q_: body.kappa_P(t, q_, u, **kw), body.kappa_P_q(t, q, u, **kw))
+                du("kappa_P_u", lambda u_: body.kappa_P(t, q, u_, **kw), body.kappa_P_u(t, q, u, **kw))
+                dq("B_Omega_q", lambda q_: body.B_Omega(t, q_, u), body.B_Omega_q(t, q, u))
+                dq("B_Psi_q", lambda q_: body.B_Psi(t, q_, u, ud), body.B_Psi_q(t, q, u, ud))
+                du("B_Psi_u", lambda u_: body.B_Psi(t, q, u_, ud), body.B_Psi_u(t, q, u, ud))
+                dq("B_J_R_q", lambda q_: body.B_J_R(t, q_), body.B_J_R_q(t, q))
+                dq("B_kappa_R_q", lambda q_: body.B_kappa_R(t, q_, u), body.B_kappa_R_q(t, q, u))
+                du("B_kappa_R_u", lambda u_: body.B_kappa_R(t, q, u_), body.B_kappa_R_u(t, q, u))
+                dq("g_S_q", lambda q_: body.g_S(t, q_), body.g_S_q(t, q))
+                du("h_u", lambda u_: body.h(t, q, u_), body.h_u(t, q, u))
+                # quaternion length is preserved by the kinematic equation
+                P = q[3:]
+                res.ok()
+                if abs(P @ qd[3:]) > 1e-12 * (np.linalg.norm(P) * np.linalg.norm(qd[3:])) + 1e-30:
+                    res.fail("quat_norm_preserved", site, abs(P @ qd[3:]), feats)
+                h = np.asarray(body.h(t, q, u), dtype=float)
+                res.ok()
+                # tolerance relative to the natural size |Theta| |omega|^2 |u| of the terms, not to |h|: for a nearly
+                # isotropic inertia h itself is a rounded zero (thorough tier, seed 1: h ~ 1e-17, a false alarm of the
+                # first version which scaled with |h|)
+                hs = float(np.max(np.abs(np.asarray(spec["body"]["theta"], dtype=float)))) * float(u[3:] @ u[3:])
+                if abs(h @ u) > 1e-12 * (max(np.linalg.norm(h), hs) * np.linalg.norm(u)) + 1e-30:
+                    res.fail("gyro_powerless", site, abs(h @ u), feats)
+                # step_callback normalises without changing the rotation
+                qn, _ = body.step_callback(t, q.copy(), u.copy())
+                res.ok()
+                if abs(np.linalg.norm(qn[3:]) - 1) > 1e-14 or np.max(np.abs(body.A_IB(t, qn) - A)) > 1e-12:
+                    res.fail("step_callback_normalises_only", site, None, feats)
+            M = np.asarray(body.M(t, q), dtype=float)
             res.ok()
-            if abs(P @ qd[3:]) > 1e-12 * (np.linalg.norm(P) * np.linalg.norm(qd[3:])) + 1e-30:
-                res.fail("quat_norm_preserved", site, abs(P @ qd[3:]), feats)
-            h = np.asarray(body.h(t, q, u), dtype=float)
-            res.ok()
-            # tolerance relative to the natural size |Theta| |omega|^2 |u| of the terms, not to |h|: for a nearly
-            # isotropic inertia h itself is a rounded zero (thorough tier, seed 1: h ~ 1e-17, a false alarm of the
-            # first version which scaled with |h|)
-            hs = float(np.max(np.abs(np.asarray(spec["body"]["theta"], dtype=float)))) * float(u[3:] @ u[3:])
-            if abs(h @ u) > 1e-12 * (max(np.linalg.norm(h), hs) * np.linalg.norm(u)) + 1e-30:
-                res.fail("gyro_powerless", site, abs(h @ u), feats)
-            # step_callback normalises without changing the rotation
-            qn, _ = body.step_callback(t, q.copy(), u.copy())
-            res.ok()
-            if abs(np.linalg.norm(qn[3:]) - 1) > 1e-14 or np.max(np.abs(body.A_IB(t, qn) - A)) > 1e-12:
-                res.fail("step_callback_normalises_only", site, None, feats)
-        M = np.asarray(body.M(t, q), dtype=float)
-        res.ok()
-        sym = float(np.max(np.abs(M - M.T)))
-        try:
-            np.linalg.cholesky(M)
-            pd = True
-        except np.linalg.LinAlgError:
-            pd = False
-        if sym > 1e-12 * np.max(np.abs(M)) or not pd:
-            res.fail("mass_spd", site, sym, feats)
-        if hasattr(body, "E_kin"):
-            res.ok()
-            e = body.E_kin(t, q, u)
-            if abs(e - 0.5 * u @ M @ u) > 1e-12 * (1 + abs(e)):
-                res.fail("ekin_is_half_uMu", site, abs(e - 0.5 * u @ M @ u), feats)
+            sym = float(np.max(np.abs(M - M.T)))
+            try:
+                np.linalg.cholesky(M)
+                pd = True
+            except np.linalg.LinAlgError:
+                pd = False
+            if sym > 1e-12 * np.max(np.abs(M)) or not pd:
+                res.fail("mass_spd", site, sym, feats)
+            if hasattr(body, "E_kin"):
+                res.ok()
+                e = body.E_kin(t, q, u)
+                if abs(e - 0.5 * u @ M @ u) > 1e-12 * (1 + abs(e)):
+                    res.fail("ekin_is_half_uMu", site, abs(e - 0.5 * u @ M @ u), feats)
 
     rotating = kind != "frame" or "axis" in bs["motion"]
     res.nontrivial = bool(np.any(B != 0)) and rotating and kind != "point"
